@@ -198,11 +198,24 @@ def hwf(E, D, depth=1):
     BNH = blank_node_hash(E)
     ok_ref = lambda r: z3.And(z3.Implies(HRef.is_RHash(r), z3.And(z3.Length(HRef.rhash(r)) == 32, HRef.rhash(r) != BNH)),
                               z3.Implies(HRef.is_REmb(r), z3.And(hwfp(HRef.remb(r)), z3.Not(HNode.is_HBlank(HRef.remb(r))))))
+    cnt = z3.If(z3.Length(HNode.bval(D)) > 0, 1, 0)
+    for i in range(16):
+        cnt = cnt + z3.If(HRef.is_RBlank(child(D, i)), 0, 1)
     return z3.And(
         z3.Implies(HNode.is_HLeaf(D), z3.And(allnib(HNode.lpath(D)), z3.Length(HNode.lval(D)) > 0)),
         z3.Implies(HNode.is_HExt(D), z3.And(allnib(HNode.epath(D)), z3.Length(HNode.epath(D)) > 0, ok_ref(HNode.echild(D)),
                                             z3.Not(HRef.is_RBlank(HNode.echild(D))))),
-        z3.Implies(HNode.is_HBranch(D), z3.And(*[ok_ref(child(D, i)) for i in range(16)])))
+        # a branch keeps at least two of its 17 entries (otherwise it is normalised away)
+        z3.Implies(HNode.is_HBranch(D), z3.And(cnt >= 2, *[ok_ref(child(D, i)) for i in range(16)])))
+
+
+def hwf_children(E, D):
+    """the references of a branch are well formed (the branch itself may have lost an entry and await
+    normalisation)"""
+    BNH = blank_node_hash(E)
+    ok_ref = lambda r: z3.And(z3.Implies(HRef.is_RHash(r), z3.And(z3.Length(HRef.rhash(r)) == 32, HRef.rhash(r) != BNH)),
+                              z3.Implies(HRef.is_REmb(r), z3.And(hwfp(HRef.remb(r)), z3.Not(HNode.is_HBlank(HRef.remb(r))))))
+    return z3.And(*[ok_ref(child(D, i)) for i in range(16)])
 
 
 # ---------------------------------------------------------------------------------------------------
@@ -311,6 +324,10 @@ def unfold_hlk(E, D, k, depth=1):
             if _mentions(X, D):
                 unfold_hlk(E, X, kt, depth - 1)
                 unfold_hlk(E, X, tail(k, z3.Length(ep)), depth - 1)
+        for (Dres, fn, Dsrc) in list(E.ghost.get("hview_rules2", [])):
+            if _mentions(z3.simplify(Dsrc), D) and not Dres.eq(D):
+                unfold_hlk(E, Dres, kt, depth - 1)
+                unfold_hlk(E, Dres, tail(k, z3.Length(ep)), depth - 1)
     if depth <= 0 or not is_constructor(D):
         return
     name = D.decl().name()
